@@ -66,6 +66,9 @@ struct SwapResult {
     src_path: String,
     ok: bool,
     errors: Vec<String>,
+    /// VM only: the state storage right after the swap, before the next sample runs
+    #[serde(skip_serializing_if = "Option::is_none")]
+    state_after_swap: Option<Vec<u64>>,
 }
 
 #[derive(Serialize, Clone, Default)]
@@ -190,7 +193,10 @@ fn run_vm(spec: &Spec, trace: &Shared) {
             match compiled {
                 Ok(prog) => {
                     match guarded(|| rd.runtime.try_hot_swap(ProgramPayload::VmProgram(prog))) {
-                        Ok(ok) => res.ok = ok,
+                        Ok(ok) => {
+                            res.ok = ok;
+                            res.state_after_swap = Some(vm_of(&mut rd).verif_state_words().to_vec());
+                        }
                         Err(p) => {
                             res.errors.push(format!("panic: {p}"));
                             return with(trace, |t| {
